@@ -493,6 +493,20 @@ func (e *Engine) tryStub(name string, fn *ssa.Function, args []Value, g *Term, p
 				e.deferGo = saved
 			}
 			return nil, true
+		case "Interfere":
+			if fv, ok := args[0].(FuncV); ok {
+				e.interferer = fv
+			} else {
+				e.interferer = FuncV{}
+			}
+			e.intfRan = TS.False
+			e.intfCount = map[string]int{}
+			return nil, true
+		case "InterfererRan":
+			if e.intfRan == nil {
+				return TS.False, true
+			}
+			return e.intfRan, true
 		case "Symbolic":
 			return TS.True, true
 		case "TimeAt":
@@ -864,6 +878,40 @@ func (e *Engine) lockOp(p Value, g *Term, pos token.Pos, lock bool) {
 		panic(unsupported("mutex through non-pointer"))
 	}
 	e.panicVC("nil mutex", pos, And(g, r.isNil()))
+	if lock && len(e.interferer.alts) > 0 && !e.inIntf {
+		// interference point: the other thread's whole operation may run here, once, if the mutex is free
+		held := TS.False
+		for _, a := range r.alts {
+			if st, ok := e.locks[a.o.(*Cell)]; ok {
+				held = Or(held, And(a.c, st))
+			}
+		}
+		cond := And(g, Not(held), Not(e.intfRan))
+		if !cond.IsFalse() {
+			ps := e.pos(pos)
+			e.intfCount[ps]++
+			gi := TS.False
+			if line, targeted := e.params["intf_line"]; targeted {
+				// targeted mode: the interference point is concrete per case (source line of the Lock call and its
+				// dynamic occurrence number), so the other operation is executed once, not once per lock point
+				n, ok := e.params["intf_n"]
+				if !ok {
+					n = 1
+				}
+				if strings.HasSuffix(ps, fmt.Sprintf(":%d", line)) && int64(e.intfCount[ps]) == n {
+					gi = cond
+				}
+			} else {
+				gi = And(cond, e.drawEngineVar(fmt.Sprintf("intf!%s#%d", ps, e.intfCount[ps])))
+			}
+			if !gi.IsFalse() {
+				e.inIntf = true
+				e.callValue(e.interferer, nil, gi, pos, nil)
+				e.inIntf = false
+				e.intfRan = Or(e.intfRan, gi)
+			}
+		}
+	}
 	for _, a := range r.alts {
 		c := a.o.(*Cell)
 		gg := And(g, a.c)
@@ -1417,4 +1465,12 @@ func (e *Engine) errorsAs(err, target Value, g *Term, pos token.Pos, depth int) 
 		}
 	}
 	return res
+}
+
+// drawEngineVar returns an engine-owned boolean choice variable (reported in models; constant in concrete re-execution).
+func (e *Engine) drawEngineVar(name string) *Term {
+	if e.modelVals != nil {
+		return Bool(e.modelVals[name] != 0)
+	}
+	return Var(name, 0)
 }
